@@ -10,6 +10,11 @@ _cache = {}
 
 
 def program(ck, targets=("liblzma",), config="default", extra_flags=None, files=None):
+    alt = os.environ.get("XZ_VERIF_CONFIG")
+    if alt and config == "default":
+        # thorough tier: the same rules on an alternate preprocessor configuration  name:flag,flag
+        config, _, fl = alt.partition(":")
+        extra_flags = list(extra_flags or []) + [x for x in fl.split(",") if x]
     key = (tuple(sorted(targets)), config, tuple(files or ()))
     if key not in _cache:
         _cache[key] = facts.extract(targets=set(targets), extra_flags=extra_flags,
